@@ -69,21 +69,33 @@ class CoqLock:
         self.f.close()
 
 
-def _ensure_makefile():
-    mk, cp = os.path.join(COQ, 'Makefile'), os.path.join(COQ, '_CoqProject')
-    if not os.path.exists(mk) or os.path.getmtime(mk) < os.path.getmtime(cp):
-        subprocess.run(['coq_makefile', '-f', '_CoqProject', '-o', 'Makefile'], cwd=COQ, check=True,
-                       capture_output=True)
-
-
-def coq_make(targets, timeout=900, jobs=8):
-    """Full .vo build of the given targets (paths relative to coq/). Returns (ok, log, cmd)."""
-    _ensure_makefile()
-    # touch the property files so that Print Assumptions output is produced on every run
-    cmd = ['timeout', str(timeout), 'make', f'-j{jobs}'] + targets
-    p = subprocess.run(cmd, cwd=COQ, capture_output=True, text=True)
-    log = p.stdout + p.stderr
-    return p.returncode == 0, log, ' '.join(cmd)
+def coq_build(files, timeout=1200):
+    """Compile the given theory files (paths relative to coq/theories, in dependency order) with
+    plain coqc (full .vo; no -vos). A file is recompiled when its .vo is missing, older than its
+    source, or older than the .vo of any file earlier in the list. Returns (ok, log, cmds)."""
+    th = os.path.join(COQ, 'theories')
+    log, cmds = '', []
+    newest_dep = 0.0
+    ok = True
+    for rel in files:
+        v = os.path.join(th, rel)
+        vo = v + 'o'
+        if not os.path.exists(v):
+            return False, log + f'\n[build] missing source {rel}', cmds
+        stale = (not os.path.exists(vo)) or os.path.getmtime(vo) < os.path.getmtime(v) or \
+            os.path.getmtime(vo) < newest_dep
+        if stale:
+            cmd = ['timeout', str(timeout), 'coqc', '-Q', 'theories', 'Tally', os.path.join('theories', rel)]
+            cmds.append(' '.join(cmd))
+            p = subprocess.run(cmd, cwd=COQ, capture_output=True, text=True)
+            log += f'COQC {rel}\n' + p.stdout + p.stderr
+            if p.returncode != 0:
+                if os.path.exists(vo):
+                    os.remove(vo)
+                ok = False
+                break
+        newest_dep = max(newest_dep, os.path.getmtime(vo))
+    return ok, log, cmds
 
 
 def coqc_file(path, timeout=600, extra_q=()):
@@ -103,14 +115,18 @@ def props_theorems(relpath):
     return thms, prints
 
 
-def check_props(prop_dir, timeout=900):
-    """Force-recompile <prop_dir>/Props.v (after building its dependencies) and parse the
-    Print Assumptions output. Returns dict(ok, log, cmd, theorems, assumptions, bad_axioms)."""
-    rel = f'{prop_dir}/Props.v'
-    vo = os.path.join(COQ, 'theories', prop_dir, 'Props.vo')
+def check_props(files, timeout=1200):
+    """Build `files` (dependency order; the last one is the property file, always recompiled so that its
+    Print Assumptions output is fresh) and parse that output.
+    Returns dict(ok, log, cmd, theorems, assumptions, bad_axioms)."""
+    rel = files[-1]
+    vo = os.path.join(COQ, 'theories', rel + 'o')
     if os.path.exists(vo):
         os.remove(vo)
-    ok, log, cmd = coq_make([f'theories/{prop_dir}/Props.vo'], timeout=timeout)
+    ok, log, cmds = coq_build(files, timeout=timeout)
+    cmd = '; '.join(cmds)
+    # only the output of the last coqc (the property file) carries the Print Assumptions blocks
+    log_last = log[log.rfind('COQC '):] if 'COQC ' in log else log
     thms, prints = props_theorems(rel)
     res = {'ok': ok, 'log': log, 'cmd': cmd, 'theorems': thms, 'assumptions': {}, 'bad_axioms': [],
            'stdlib_axioms': []}
@@ -118,7 +134,7 @@ def check_props(prop_dir, timeout=900):
         return res
     # parse Print Assumptions blocks in order
     blocks, cur = [], None
-    for line in log.splitlines():
+    for line in log_last.splitlines():
         if line.startswith('Closed under the global context'):
             blocks.append([])
             cur = None
@@ -155,20 +171,18 @@ def check_props(prop_dir, timeout=900):
     return res
 
 
-def hygiene(dirs):
-    """grep the development for forbidden vernacular; returns offending 'file:line: text'."""
+def hygiene(files):
+    """grep the given theory files for forbidden vernacular; returns offending 'file:line: text'."""
     bad = []
-    for d in dirs:
-        root = os.path.join(COQ, 'theories', d)
-        for dp, _, fs in os.walk(root):
-            for fn in fs:
-                if not fn.endswith('.v'):
-                    continue
-                p = os.path.join(dp, fn)
-                for i, line in enumerate(open(p), 1):
-                    code = re.sub(r'\(\*.*?\*\)', '', line)
-                    if FORBIDDEN.search(code):
-                        bad.append(f'{os.path.relpath(p, VERIF)}:{i}: {line.strip()}')
+    for rel in files:
+        p = os.path.join(COQ, 'theories', rel)
+        if not os.path.exists(p):
+            continue
+        txt = open(p).read()
+        txt = re.sub(r'\(\*.*?\*\)', lambda m: re.sub(r'[^\n]', ' ', m.group(0)), txt, flags=re.S)
+        for i, line in enumerate(txt.splitlines(), 1):
+            if FORBIDDEN.search(line):
+                bad.append(f'coq/theories/{rel}:{i}: {line.strip()}')
     return bad
 
 
@@ -279,14 +293,15 @@ class Run:
         sys.exit(1 if seen else 0)
 
     # ---- standard proof step -----------------------------------------------------------
-    def proof_step(self, prop_dir, hygiene_dirs, extra_trusted=()):
-        """Build Properties file; fill proof coverage; returns the check_props dict."""
+    def proof_step(self, files, extra_trusted=()):
+        """Build the theory files (dependency order, property file last); fill proof coverage;
+        returns the check_props dict (plus 'hygiene': forbidden vernacular found in those files)."""
         with CoqLock():
-            res = check_props(prop_dir)
-        bad = hygiene(hygiene_dirs)
+            res = check_props(files)
+        bad = hygiene(files)
         n = len([t for t in res['theorems']])
         self.cov['obligations'] += n + 1       # +1: hygiene obligation (no Admitted/axioms/unchecked)
-        self.cov['checker_cmd'] = f'cd {COQ} && {res["cmd"]}  (coqc 8.16.1, full .vo)'
+        self.cov['checker_cmd'] = f'cd {COQ} && ' + (res['cmd'] or 'coqc -Q theories Tally theories/' + files[-1]) + '  (coqc 8.16.1, full .vo)'
         tb = ['Coq 8.16.1 kernel + coqc; vm_compute for closed computations; no native_compute',
               'Print Assumptions: ' + json.dumps(res['assumptions'])]
         tb += list(extra_trusted)
